@@ -484,8 +484,12 @@ class FixedArray
 
         if (isMaskedReference())
         {
+            // the mask is dimensioned either like this reference or like
+            // the unmasked array it refers to
+            const bool maskIsUnmasked = (size_t) mask.len() != len;
             for (size_t i = 0; i < len; ++i)
-                _ptr[raw_ptr_index(i)*_stride] = data;
+                if (mask[maskIsUnmasked ? raw_ptr_index(i) : i])
+                    _ptr[raw_ptr_index(i)*_stride] = data;
         }
         else
         {
